@@ -209,8 +209,7 @@ def kind_for(case, symptom: str, detail: str) -> str:
     if symptom == "argv-mismatch" and _inner_binding_without_outer(case):
         return "C30:array-schema-binding-without-outer-binding-order"
     env = case["doc"].get("requirements", {}).get("EnvVarRequirement", {}).get("envDef", {})
-    if symptom in ("sf-fails-only", "argv-mismatch", "dump-unreadable") and composite_needs_quoting(case) and not any(
-            set(v) & set('$`"\\') for v in env.values()):
+    if symptom in ("sf-fails-only", "argv-mismatch", "dump-unreadable") and composite_needs_quoting(case):
         return "C30:composite-binding-not-shell-quoted"
     if symptom in ("env-mismatch", "sf-fails-only", "argv-mismatch", "dump-unreadable") and any(
             set(v) & set('$`"\\') for v in env.values()):
